@@ -99,7 +99,7 @@ def run(ctx):
     if ctx.quick:
         hard = [r for r in recs if r["expectCopy"] or r["expectCanonicalPlt"]]
         rest = [r for r in recs if not (r["expectCopy"] or r["expectCanonicalPlt"])]
-        pick = rng.sample(hard, min(30, len(hard))) + rng.sample(rest, 45)
+        pick = rng.sample(hard, min(22, len(hard))) + rng.sample(rest, 28)
     else:
         pick = recs
     with scratch("c38") as d:
